@@ -1,4 +1,5 @@
 import OpenHTF.Model.Render
+import OpenHTF.Model.PendingSet
 /-
 C10 — serialized (base-type) view equals the in-memory record: conversion closure and the
 measurement caches, for every value of the family and every operation history.
@@ -179,3 +180,129 @@ example :
     (renderCached m).1 = "PARTIALLY_SET" ∧ (renderCached m).2.isSome = true := by decide
 
 end OpenHTF.Render
+
+namespace OpenHTF.PendingSet
+
+/-- every measurement whose cached rendering is out of date is accounted for: it is in the pending set, or in what the
+    watcher still has to refresh, or the phase thread is just about to mark it; and the watcher holds a list only while
+    it renders -/
+structure Inv (s : S) : Prop where
+  accounted : ∀ m, s.cached m = s.actual m ∨ m ∈ s.pend ∨ m ∈ s.wlist ∨ s.ppc = some m
+  idleEmpty : s.wpc ≠ .rendering → s.wlist = []
+
+theorem inv_init : Inv {} := ⟨fun _ => Or.inl rfl, fun _ => rfl⟩
+
+theorem inv_step (s s' : S) (a : Act) (h : Inv s) (hs : step s a = some s') : Inv s' := by
+  obtain ⟨h1, h2⟩ := h
+  cases a with
+  | store m v =>
+    simp only [step] at hs
+    split at hs <;> cases hs
+    rename_i hp
+    refine ⟨fun x => ?_, h2⟩
+    by_cases hx : x = m
+    · subst hx; right; right; right; rfl
+    · rcases h1 x with a | a | a | a
+      · left; simpa [updN, hx] using a
+      · right; left; exact a
+      · right; right; left; exact a
+      · rw [hp] at a; cases a
+  | mark =>
+    simp only [step] at hs
+    split at hs <;> cases hs
+    rename_i m hm
+    refine ⟨fun x => ?_, h2⟩
+    rcases h1 x with a | a | a | a
+    · left; exact a
+    · right; left; exact List.mem_cons_of_mem _ a
+    · right; right; left; exact a
+    · rw [hm] at a; cases a; right; left; exact List.mem_cons_self
+  | wStart =>
+    simp only [step] at hs
+    split at hs <;> cases hs
+    rename_i hi
+    exact ⟨h1, fun _ => h2 (by rw [hi]; decide)⟩
+  | wSwap =>
+    simp only [step] at hs
+    split at hs <;> cases hs
+    rename_i ha
+    have hw : s.wlist = [] := h2 (by rw [ha]; decide)
+    refine ⟨fun x => ?_, fun hn => absurd rfl hn⟩
+    rcases h1 x with a | a | a | a
+    · left; exact a
+    · right; right; left; exact a
+    · rw [hw] at a; cases a
+    · right; right; right; exact a
+  | wRender =>
+    simp only [step] at hs
+    split at hs
+    · rename_i hr
+      split at hs <;> cases hs
+      rename_i m rest hw
+      refine ⟨fun x => ?_, fun hn => absurd hr hn⟩
+      by_cases hx : x = m
+      · subst hx; left; simp [updN]
+      · rcases h1 x with a | a | a | a
+        · left; simpa [updN, hx] using a
+        · right; left; exact a
+        · right; right; left
+          rw [hw] at a
+          rcases List.mem_cons.1 a with e | e
+          · exact absurd e hx
+          · exact e
+        · right; right; right; exact a
+    · cases hs
+  | wDone =>
+    simp only [step] at hs
+    split at hs <;> cases hs
+    rename_i hd
+    exact ⟨h1, fun _ => hd.2⟩
+
+theorem inv_run : ∀ (as : List Act) (s s' : S), Inv s → run s as = some s' → Inv s'
+  | [], s, s', h, hr => by simp [run] at hr; subst hr; exact h
+  | a :: as, s, s', h, hr => by
+    simp only [run] at hr
+    split at hr
+    · cases hr
+    · rename_i s1 hs1
+      exact inv_run as s1 s' (inv_step s s1 a h hs1) hr
+
+/-- C10 (live view under concurrent rendering): under EVERY interleaving of the phase thread's assignments with a
+    watcher thread's renderings, no update is ever lost: a measurement whose cached rendering is stale is still pending,
+    still on the watcher's list, or about to be marked -/
+theorem c10_live_view_never_loses_an_update (as : List Act) (s : S) (hr : run {} as = some s) (m : Nat) :
+    s.cached m = s.actual m ∨ m ∈ s.pend ∨ m ∈ s.wlist ∨ s.ppc = some m :=
+  (inv_run as {} s inv_init hr).accounted m
+
+/-- … so that whenever things are quiet (nothing pending, no rendering in progress, no assignment half done) the live
+    view shows the current value of every measurement -/
+theorem c10_quiescent_live_view_is_current (as : List Act) (s : S) (hr : run {} as = some s)
+    (hq : s.pend = [] ∧ s.wlist = [] ∧ s.ppc = none) (m : Nat) : s.cached m = s.actual m := by
+  rcases c10_live_view_never_loses_an_update as s hr m with a | a | a | a
+  · exact a
+  · rw [hq.1] at a; cases a
+  · rw [hq.2.1] at a; cases a
+  · rw [hq.2.2] at a; cases a
+
+/-- … and a watcher can always finish: one more full rendering pass after the last assignment empties everything -/
+theorem c10_render_pass_refreshes (s : S) (m : Nat) (rest : List Nat) (hw : s.wpc = .rendering) (hl : s.wlist = m :: rest) :
+    step s .wRender = some { s with cached := updN s.cached m (s.actual m), wlist := rest } ∧
+      updN s.cached m (s.actual m) m = s.actual m := by
+  constructor
+  · simp [step, hw, hl]
+  · simp [updN]
+
+/-- iterating a snapshot and clearing afterwards is NOT safe: an assignment made while the watcher renders is wiped from
+    the pending set without being refreshed, and the quiet state shows a stale value -/
+theorem clear_after_iterate_loses_an_update :
+    ∃ s, crun {} [.store 1 5, .mark, .wSnap, .store 2 7, .mark, .wRender, .wClear] = some s ∧
+      s.pend = [] ∧ s.wlist = [] ∧ s.ppc = none ∧ s.cached 2 ≠ s.actual 2 := by
+  refine ⟨_, rfl, ?_⟩
+  decide
+
+example : ∃ s, run {} [.store 1 5, .mark, .wStart, .store 2 7, .mark, .wSwap, .wRender, .wRender, .wDone] = some s ∧
+    s.cached 1 = 5 ∧ s.cached 2 = 7 := by
+  refine ⟨_, rfl, ?_⟩
+  decide
+
+end OpenHTF.PendingSet
